@@ -441,6 +441,14 @@ func (x *Unit) onceDo(st *State, pc *preparedCall) []Val {
 		fpc.funVal = nil
 	}
 	fpc.sig, _ = under(pc.args[0].Typ).(*types.Signature)
+	if se, ok := ast.Unparen(pc.call.Args[0]).(*ast.SelectorExpr); ok {
+		// once.Do(x.f) with f a func-typed field: use the field's contract
+		if sel := x.info.Selections[se]; sel != nil && sel.Kind() == types.FieldVal {
+			if stt, name, _ := structOfType(x.info.TypeOf(se.X)); stt != nil && len(sel.Index()) == 1 {
+				fpc.fieldOf = shortTypeName(name) + "." + se.Sel.Name
+			}
+		}
+	}
 	if live(run) != nil {
 		x.invoke(run, fpc, 0)
 	}
